@@ -4,6 +4,6 @@ patch=$1; shift
 cd /repo || exit 2
 if [ -n "$(git status --porcelain --untracked-files=no)" ]; then echo "/repo has uncommitted changes"; exit 2; fi
 if ! git apply "$patch" 2>/dev/null; then git apply -3 "$patch" || { echo "patch does not apply"; git checkout -q HEAD -- .; exit 3; }; fi
-for p in "$@"; do (cd /verif && /verif/bin/gvc check --property "$p" 2>&1 | grep -E '^FAILED|^VIOLATION|^KNOWN|^gvc' | cut -c1-${CUT:-220} | head -${HEAD:-8}); done
+for p in "$@"; do (cd /verif && /verif/bin/gvc check --property "$p" --canary 2>&1 | grep -E '^FAILED|^VIOLATION|^KNOWN|^gvc' | cut -c1-${CUT:-220} | head -${HEAD:-8}); done
 git checkout -q HEAD -- .
 git status --porcelain --untracked-files=no
